@@ -291,7 +291,7 @@ func (c *zzC11Case) zzC11History(ord int) []zzC11Op {
 	var hist []zzC11Op
 	for t := 0; t < 300; t++ {
 		hist = c.zzC11Order(ord + 2*t*100003)
-		if early, alias, wrong := c.zzC11Replica(hist); !early && !alias && !wrong {
+		if early, wrong := c.zzC11Replica(hist); !early && !zzC11Any(wrong) {
 			break
 		}
 	}
@@ -436,15 +436,16 @@ func zzC11SameTrace(a, b []int64) bool {
 // zzC11Replica replays the history on lists of flavor indexes the way
 // pkg/generic/defmethod.go insertMethod places a late-defined combination
 // (walk the inheritor's component list, advance while the entries match, put
-// the new entry at the position reached; when that position is inside the list
-// the aliasing append overwrites the entry there and duplicates the new one).
+// the new entry at the position reached with slices.Insert; the walk never
+// stops at the component itself, which is the C11-insert-position defect).
 // It also replays how Flavor.inheritFlavor (pkg/flavors/flavor.go:214-229)
 // fills a new flavor's list: the whole list of each component (which already
 // ends with vanilla-flavor's entry for a message like :init) is appended in
 // turn. early: at some defflavor vanilla-flavor's entry landed in front of a
-// later component's entry. alias: some insertion landed inside a list. wrong:
-// some final list differs from the component order.
-func (c *zzC11Case) zzC11Replica(hist []zzC11Op) (early, alias, wrong bool) {
+// later component's entry. wrong[d]: the final list of flavor d differs from
+// the component order.
+func (c *zzC11Case) zzC11Replica(hist []zzC11Op) (early bool, wrong []bool) {
+	wrong = make([]bool, c.n)
 	tab := make([][]int, c.n)
 	defined := make([]bool, c.n)
 	has := make([]bool, c.n)
@@ -501,27 +502,32 @@ func (c *zzC11Case) zzC11Replica(hist []zzC11Op) (early, alias, wrong bool) {
 			var list []int
 			list = append(list, old[:pos]...)
 			list = append(list, i)
-			if pos < len(old) {
-				alias = true
-				list = append(list, i)
-				list = append(list, old[pos+1:]...)
-			}
+			list = append(list, old[pos:]...)
 			tab[d] = list
 		}
 	}
 	for d := 0; d < c.n; d++ {
 		want := c.zzC11Providers(d)
 		if len(want) != len(tab[d]) {
-			wrong = true
+			wrong[d] = true
 			continue
 		}
 		for k := range want {
 			if want[k] != tab[d][k] {
-				wrong = true
+				wrong[d] = true
 			}
 		}
 	}
 	return
+}
+
+func zzC11Any(bs []bool) bool {
+	for _, b := range bs {
+		if b {
+			return true
+		}
+	}
+	return false
 }
 
 func zzC11In(list []int, x int) bool {
@@ -533,57 +539,10 @@ func zzC11In(list []int, x int) bool {
 	return false
 }
 
-// zzC11WhopSkip: with the providers of flavor i in component order, does
-// WhopLoc.Continue (whoploc.go:46-62) jump over a whopper? After the first
-// whopper every continue-whopper resumes the search two entries further on, so
-// a whopper directly behind a non-first whopper that ran is never run.
-func (c *zzC11Case) zzC11WhopSkip(i int) bool {
-	prov := c.zzC11Providers(i)
-	first := -1
-	for k, f := range prov {
-		if c.zzC11MaskOf(f)&8 != 0 {
-			first = k
-			break
-		}
-	}
-	if first < 0 {
-		return false
-	}
-	k := first + 1
-	for k < len(prov) {
-		if c.zzC11MaskOf(prov[k])&8 == 0 {
-			k++
-			continue
-		}
-		// whopper at k runs; the next search starts at k+2
-		if k+1 < len(prov) && c.zzC11MaskOf(prov[k+1])&8 != 0 {
-			return true
-		}
-		k += 2
-	}
-	return false
-}
-
-// zzC11AfterForward: BoundInnerCall (method.go:96-100) runs the :after daemons
-// first-to-last; visible when no whopper intercepts and two or more flavors
-// provide an :after daemon.
-func (c *zzC11Case) zzC11AfterForward(i int) bool {
-	cnt := 0
-	for _, f := range c.zzC11Providers(i) {
-		if c.zzC11MaskOf(f)&8 != 0 {
-			return false
-		}
-		if c.zzC11MaskOf(f)&4 != 0 {
-			cnt++
-		}
-	}
-	return 2 <= cnt
-}
-
-// zzC11CheckTables compares the per-flavor method table and precedence list
+// zzC11CheckTable compares the method table and precedence list of flavor i
 // with the component order.
-func (c *zzC11Case) zzC11CheckTables() {
-	for i := 0; i < c.n; i++ {
+func (c *zzC11Case) zzC11CheckTable(i int) {
+	{
 		si := strconv.Itoa(i)
 		fl := allFlavors[c.names[i]]
 		vrt.Assert(fl != nil, "flavor not registered, flavor "+si)
@@ -607,7 +566,7 @@ func (c *zzC11Case) zzC11CheckTables() {
 		m := fl.methods[c.msg]
 		if len(prov) == 0 {
 			vrt.Assert(m == nil, "method table entry without any daemon, flavor "+si)
-			continue
+			return
 		}
 		vrt.Assert(m != nil, "method table entry missing, flavor "+si)
 		if m == nil {
@@ -752,44 +711,26 @@ func zzC11BoundSend(s *slip.Scope, inst *Instance, msg string) (out zzC11Result)
 func zzC11Work(n, shape, masks, msg, ord int, bound bool) {
 	c := zzC11Decode(n, shape, masks, msg)
 	hist := c.zzC11History(ord)
-	early, alias, wrong := c.zzC11Replica(hist)
+	early, wrong := c.zzC11Replica(hist)
 	vrt.Note("history", zzC11HistString(hist))
-	vrt.Carve("C11-vanilla-before-components", early)
-	vrt.Carve("C11-insert-alias", alias && !early)
-	vrt.Carve("C11-insert-position", wrong && !alias && !early)
-	// The dispatch findings concern single flavors of a program: the path is
-	// split (part 0: all flavors outside those regions, part 1 / 2: the flavors
-	// inside), so that the carve predicates are decided before slip runs.
-	skip := make([]bool, c.n)
-	fwd := make([]bool, c.n)
-	anySkip, anyFwd := false, false
-	for i := 0; i < c.n; i++ {
-		skip[i] = c.zzC11WhopSkip(i)
-		fwd[i] = bound && c.zzC11AfterForward(i) // excludes skip[i]: no whopper
-		anySkip = anySkip || skip[i]
-		anyFwd = anyFwd || fwd[i]
-	}
+	// The two remaining table findings concern single flavors of a program
+	// (those whose own table is misordered): the path is split, part 0 checks
+	// every flavor whose table is predicted in component order, part 1 (inside
+	// the region of the finding) the others.
 	part := 0
-	if !early && !alias && !wrong {
-		switch {
-		case anySkip && anyFwd:
-			part = vrt.Choice("part", 3)
-		case anyFwd:
-			part = vrt.Choice("part", 2)
-		case anySkip:
-			part = 2 * vrt.Choice("part", 2)
-		}
+	if zzC11Any(wrong) {
+		part = vrt.Choice("part", 2)
 	}
-	vrt.Carve("C11-bound-after-forward", part == 1)
-	vrt.Carve("C11-whopper-skip", part == 2)
+	vrt.Carve("C11-vanilla-before-components", part == 1 && early)
+	vrt.Carve("C11-insert-position", part == 1 && !early)
 	okDef := c.zzC11Define(hist)
 	vrt.Assert(okDef, "a definition form signalled an error")
 	if !okDef {
 		return
 	}
-	c.zzC11CheckTables()
 	for i := 0; i < c.n; i++ {
-		if (part == 1) == fwd[i] && (part == 2) == skip[i] {
+		if wrong[i] == (part == 1) {
+			c.zzC11CheckTable(i)
 			c.zzC11CheckSend(i, bound)
 		}
 	}
